@@ -1195,3 +1195,158 @@ def _final_rhs(a):
     while r0.get('k') == 'bin' and r0['op'] == '=':
         r0 = strip_casts(r0['r'])
     return r0
+
+
+# ---- TAB21 hex digit table --------------------------------------------------------------------------------------------------
+
+def _evalb(e, b, env, u, src_ok):
+    """Value of a pure integer expression as a function of the current input byte b (None = not evaluable)."""
+    e0 = e
+    e = strip_casts(e)
+    v = const_val(e0)
+    if v is None:
+        v = const_val(e)
+    if v is not None:
+        return v
+    k = e.get('k')
+    val = None
+    if k in ('idx', 'un') and access(e) is not None and src_ok(access(e)[0]):
+        val = b
+    elif k == 'ref':
+        if e['d'] in env:
+            val = _evalb(env[e['d']], b, env, u, src_ok)
+        else:
+            return None
+    elif k == 'bin' and e['op'] in ('+', '-', '|', '&', '^', '<<', '>>', '*'):
+        l, r = _evalb(e['l'], b, env, u, src_ok), _evalb(e['r'], b, env, u, src_ok)
+        if l is None or r is None:
+            return None
+        op = e['op']
+        val = {'+': l + r, '-': l - r, '|': l | r, '&': l & r, '^': l ^ r, '<<': l << (r & 31), '>>': l >> (r & 31), '*': l * r}[op]
+    elif k == 'bin' and e['op'] in CMP_OPS:
+        l, r = _evalb(e['l'], b, env, u, src_ok), _evalb(e['r'], b, env, u, src_ok)
+        if l is None or r is None:
+            return None
+        val = int({'==': l == r, '!=': l != r, '<': l < r, '<=': l <= r, '>': l > r, '>=': l >= r}[e['op']])
+    elif k == 'un' and e['op'] in ('-', '~', '!'):
+        x = _evalb(e['e'], b, env, u, src_ok)
+        if x is None:
+            return None
+        val = {'-': -x, '~': ~x, '!': int(not x)}[e['op']]
+    else:
+        return None
+    # explicit casts on the way out
+    c = e0
+    chain = []
+    while c.get('k') == 'cast':
+        chain.append(c)
+        c = c['e']
+    for cst in reversed(chain):
+        t = u.ty(cst['ty'])
+        if t['c'] == 'int' and t.get('bits'):
+            bits = t['bits']
+            val &= (1 << bits) - 1
+            if not t.get('unsigned') and val >= (1 << (bits - 1)):
+                val -= (1 << bits)
+    return val
+
+
+def tab21(units, R):
+    """parse_hex4 accepts exactly the 22 hexadecimal digit bytes, each with its value: the set of byte values that do not
+    reach the failure return, and what each contributes, are computed over all 256 byte values from the conditions and
+    expressions of the loop body."""
+    from ..dataflow import solve
+    u = units['cJSON.c']
+    fn = u.fn('parse_hex4')
+    cfg = fn.cfg()
+    inp = fn.params[0]['d']
+
+    def src_ok(base):
+        b = strip_casts(base)
+        return b.get('k') == 'ref' and b.get('d') == inp
+    ALL = frozenset(range(256))
+    heads = {n.id for n in cfg.nodes if n.kind == 'nop' and n.name == 'loop-head'}
+    contrib = []     # (byte set, value expression, env)
+    rejected = set()
+
+    class St:
+        def __init__(self, B, env):
+            self.B = B
+            self.env = env
+
+        def __eq__(self, o):
+            return self.B == o.B and sorted(self.env) == sorted(o.env)
+
+        def __ne__(self, o):
+            return not self.__eq__(o)
+
+    acc_var = None
+    rets = [r for r in cfg.returns() if r.expr is not None and is_ref(r.expr)]
+    if rets:
+        acc_var = strip_casts(rets[0].expr)['d']
+
+    def transfer(node, st):
+        if node.id in heads:
+            return St(ALL, {})
+        env = dict(st.env)
+        if node.kind == 'decl' and 'init' in node.decl:
+            env[node.decl['d']] = node.decl['init']
+        elif node.kind == 'stmt':
+            e = node.expr
+            if e.get('k') == 'bin' and e['op'] in ASSIGN_OPS and is_ref(e['l']):
+                d = strip_casts(e['l'])['d']
+                if d == acc_var:
+                    if e['op'] == '+=':
+                        contrib.append((st.B, e['r'], dict(env)))
+                    elif e['op'] == '=' and strip_casts(e['r']).get('k') == 'bin' and strip_casts(e['r'])['op'] in ('+', '|'):
+                        r = strip_casts(e['r'])
+                        for (x, y) in ((r['l'], r['r']), (r['r'], r['l'])):
+                            if is_ref(x) and strip_casts(x)['d'] == acc_var:
+                                contrib.append((st.B, y, dict(env)))
+                elif e['op'] == '=':
+                    env[d] = e['r']
+                else:
+                    env.pop(d, None)
+        elif node.kind == 'return' and node.expr is not None and const_val(node.expr) == 0:
+            rejected.update(st.B)
+        return St(st.B, env)
+
+    def refine(node, label, st):
+        if label[0] not in ('T', 'F'):
+            return st
+        keep = set()
+        for b in st.B:
+            v = _evalb(label[1], b, st.env, u, src_ok)
+            if v is None:
+                return st       # condition does not depend on the byte (loop counter)
+            if bool(v) == (label[0] == 'T'):
+                keep.add(b)
+        if not keep:
+            return None
+        return St(frozenset(keep), st.env)
+
+    def join(a, b):
+        return St(a.B | b.B, {k: v for k, v in a.env.items() if k in b.env})
+    contrib.clear()
+    rejected.clear()
+    solve(cfg, St(ALL, {}), transfer, refine, join)
+    accepted = set(range(256)) - rejected
+    want = set(b'0123456789abcdefABCDEF')
+    R.ob('TAB21', fn, None, 'parse_hex4 accepts exactly the bytes 0-9 a-f A-F', accepted == want,
+         '22 bytes accepted' if accepted == want else 'also accepts %s / refuses %s' % (
+             sorted(accepted - want)[:10], sorted(want - accepted)[:10]), key='hexdigits')
+    # values
+    bad = []
+    seen = set()
+    for (B, e, env) in contrib:
+        for b in sorted(B & want):
+            v = _evalb(e, b, env, u, src_ok)
+            if v is None:
+                raise AnalysisBroken('TAB21: digit value expression %s is not evaluable' % expr_str(e)[:40])
+            seen.add(b)
+            if v != int(chr(b), 16):
+                bad.append((chr(b), v))
+    R.ob('TAB21', fn, None, 'each hexadecimal digit contributes its value', not bad and seen >= want,
+         'all 22 digits evaluated' if not bad and seen >= want else 'wrong values %s, unevaluated %s' % (bad[:6], sorted(want - seen)[:6]),
+         key='hexvalues')
+    R.floor('TAB21', 'digit contributions found', len(contrib), 1)
